@@ -21,7 +21,8 @@ EXTENDS WireCodec, TLC, Json
 
 CONSTANTS Pairs,        \* "none" | "some" | "all": which two-field combinations are generated
           MaxAbsent,    \* header presence: up to this many absent fields
-          GroupProduct  \* TRUE: header subsets x group subsets, FALSE: their sum
+          GroupProduct, \* TRUE: header subsets x group subsets, FALSE: their sum
+          OddAll        \* TRUE: every transaction subset also with odd field contents
 
 VARIABLES phase, c
 vars == <<phase, c>>
@@ -62,7 +63,12 @@ PairsOf(kind, i) ==
 BlockShapes == { [op |-> "rt", kind |-> "block", cls |-> [g \in {"#txs"} |-> n]] : n \in {"nil", "empty", "two"} }
 
 (* ------------------------------------------------------------- presence *)
-Pres(kind, p, hp, txs, tv) == [op |-> "presence", kind |-> kind, present |-> p, hpresent |-> hp, txs |-> txs, tv |-> tv]
+(* cv: content of the fields that are written: "typical" (well-formed) or "odd" (a signature that is
+   not 65 bytes, hashes of the wrong length, byte fields that should hold JSON but do not, an empty
+   prove value): the parsers must stay total whatever the present fields hold *)
+PresC(kind, p, hp, txs, tv, cv) ==
+  [op |-> "presence", kind |-> kind, present |-> p, hpresent |-> hp, txs |-> txs, tv |-> tv, cv |-> cv]
+Pres(kind, p, hp, txs, tv) == PresC(kind, p, hp, txs, tv, "typical")
 
 UpTo(S, n) == {T \in SUBSET S : Cardinality(T) <= n}
 AbsentUpTo(S, n) == {S \ T : T \in UpTo(S, n)}
@@ -90,10 +96,29 @@ TxsPresence ==
   { Pres("txs", {}, {}, txs, "valid") :
       txs \in {<<>>} \cup {<<t>> : t \in TxPatterns} \cup {<<t, u>> : t, u \in TxPatterns} }
 
+OddTx == {"odd:Sign", "odd:SignEmpty", "odd:SubTransactions", "odd:Hash", "odd:SubHash"}
+OddHeader == {"odd:RequestIds", "odd:ProveValue", "odd:Hash", "odd:TxTree", "odd:PreHash"}
+OddSets(S) == IF OddAll THEN SUBSET S ELSE AbsentUpTo(S, 3) \cup UpTo(S, 3)
+OddPresence ==
+  { PresC("tx", p, {}, <<>>, "valid", "odd") : p \in OddSets(TxNums) }
+  \cup { PresC("header", p, {}, <<>>, "valid", "odd") : p \in AbsentUpTo(HeaderNums, 2) \cup UpTo(HeaderNums, 3) }
+  \cup { PresC("txs", {}, {}, txs, "valid", "odd") : txs \in {<<t>> : t \in TxPatterns \cup {{5, 9}, {5, 9, 13}}}
+                                                             \cup {<<TxNums, t>> : t \in {{5, 9}, TxNums \ {2}}} }
+  \cup { PresC("block", {1}, HeaderNums, txs, "valid", "odd") : txs \in {<<t>> : t \in TxPatterns \cup {{5, 9}, {5, 9, 13}}} }
+  \cup { PresC("group", p, hp, <<>>, "valid", "odd") : p \in {GroupNums, {1}}, hp \in {GHeaderNums, {6, 7}} }
+  (* one ill-formed field at a time ("odd:<Field>"; SignEmpty: a present but empty signature), crossed
+     with no / one / two absent fields, alone and nested in a list and a block *)
+  \cup { PresC("tx", TxNums \ a, {}, <<>>, "valid", cv) : a \in UpTo(TxNums, 2), cv \in OddTx }
+  \cup { PresC("txs", {}, {}, <<TxNums, TxNums \ a>>, "valid", cv) : a \in UpTo(TxNums, 1), cv \in OddTx }
+  \cup { PresC("block", {1}, HeaderNums, <<TxNums \ a>>, "valid", cv) : a \in UpTo(TxNums, 1), cv \in OddTx }
+  \cup { PresC("header", HeaderNums \ a, {}, <<>>, "valid", cv) : a \in UpTo(HeaderNums, 2), cv \in OddHeader }
+  \cup { PresC("block", {1}, HeaderNums \ a, <<TxNums>>, "valid", cv) : a \in UpTo(HeaderNums, 1), cv \in OddHeader }
+  \cup { Pres("header", HeaderNums \ a, {}, <<>>, tv) : a \in UpTo(HeaderNums, 1), tv \in {"empty", "garbage"} }
+
 (* ------------------------------------------------------------ state space *)
 Seeds == UNION { { [op |-> "seed", fam |-> "rt", kind |-> k, i |-> i] : i \in 1..Len(KeysOf(k)) } : k \in Kinds }
          \cup { [op |-> "seed", fam |-> "txp", low |-> l] : l \in SUBSET (1..4) }
-         \cup { [op |-> "seed", fam |-> f] : f \in {"headerp", "groupp", "blockp", "txsp", "blockshape"} }
+         \cup { [op |-> "seed", fam |-> f] : f \in {"headerp", "groupp", "blockp", "txsp", "blockshape", "oddp"} }
 
 CasesOf(s) ==
   CASE s.fam = "rt" -> Singles(s.kind, s.i) \cup PairsOf(s.kind, s.i)
@@ -103,6 +128,7 @@ CasesOf(s) ==
     [] s.fam = "blockp" -> BlockPresence
     [] s.fam = "txsp" -> TxsPresence
     [] s.fam = "blockshape" -> BlockShapes
+    [] s.fam = "oddp" -> OddPresence
 
 Init == phase = 0 /\ c \in Seeds
 Next == phase = 0 /\ phase' = 1 /\ c' \in CasesOf(c)
